@@ -1,4 +1,5 @@
 import OrbitModel.Generated.GenConnect
+import OrbitModel.Generated.GenConnectCtx
 import OrbitModel.Model.Order
 /-!
 # Regenerated Go fragment = hand-written model (tie 2)
@@ -6,5 +7,7 @@ import OrbitModel.Model.Order
 namespace Orbit
 
 theorem gen_connect_order : Gen.connectOrder = Order.connect := by decide
+
+theorem gen_connectCtx_order : Gen.connectCtxOrder = Order.connectCtx := by decide
 
 end Orbit
